@@ -44,7 +44,7 @@ def run():
         "order of several priorities and use of a stable std sort; run_dedupe's merge of the header settings.",
         assumptions=["FileSubGroup::group returns a partition of its input (hard-link sub-grouping itself is outside, see C06)",
                      "std's sort_by_key / sort_by are stable", "glob matching itself is C16"],
-        outside=["hard-link / isolate sub-grouping (IndexMap)", "the clap attribute defining -n", "glob matcher (C16)"])
+        outside=["hard-link / isolate sub-grouping (IndexMap)", "clap's own parsing of the option values", "glob matcher (C16)"])
     ctx = oblig.Ctx()
     oblig.install_battery(rep, ctx, ["c08_battery"])
     prog = ctx.lib
@@ -308,6 +308,9 @@ def run():
         o = Obligation("sub-grouping", "E2 mirsym/z3")
         o.verdict, o.detail = "inconclusive", str(ex)
         rep.add(o)
+    # -n / --rf-over and the other dedupe options are usable at all: definition and access types of the clap options agree
+    from obligations import cli_types
+    cli_types.add(rep, ctx, prog, r"^DedupeConfig$")
     return rep
 
 
